@@ -267,7 +267,7 @@ CondCtxFillPats ==
    IN { LET r == Renumber(e) IN [ast |-> r, ng |-> Len(GroupOrder(e))] : e \in W }
 
 Quants8 == {<<0, -1, TRUE>>, <<0, -1, FALSE>>, <<1, -1, TRUE>>, <<0, 1, TRUE>>, <<0, 1, FALSE>>,
-            <<1, 2, TRUE>>, <<2, 2, TRUE>>, <<2, -1, FALSE>>, <<1, 2, FALSE>>, <<0, 0, TRUE>>}      \* incl. a lazy BOUNDED repeat (own VM instruction RepeatNg)
+            <<1, 2, TRUE>>, <<2, 2, TRUE>>, <<2, -1, FALSE>>, <<1, 2, FALSE>>, <<0, 0, TRUE>>, <<0, 2, TRUE>>}      \* incl. a lazy BOUNDED repeat (own VM instruction RepeatNg)
 Quants4 == {<<0, -1, TRUE>>, <<1, -1, FALSE>>, <<0, 1, TRUE>>, <<1, 2, TRUE>>}
 
 \* C01/C02/C03 space: every construct of C01's statement; references only to groups closed earlier
@@ -336,7 +336,12 @@ WildShapes == <<
    Cat(<<Star(Alt(<<Cat(<<La, Look(Lb)>>), Empty, Lc>>)), Lb>>),                             \* (?:a(?=b)||c)*b
    Cat(<<Rep(Alt(<<Cat(<<La, Look(Lb)>>), Empty, Lc>>), 0, -1, FALSE), Lb>>),                \* (?:a(?=b)||c)*?b
    Cat(<<Plus(Alt(<<Cat(<<La, Look(Lb)>>), Look(Empty), Lc, LE>>)), AnyC>>),                 \* (?:a(?=b)|(?=)|c|E)+.
-   Cat(<<Grp(1, La), Rep(Alt(<<Cat(<<Lb, Bref(1)>>), Lc, NLookB(Lb), LE>>), 2, -1, TRUE), Lb>>)   \* (a)(?:b\1|c|(?<!b)|E){2,}b
+   Cat(<<Grp(1, La), Rep(Alt(<<Cat(<<Lb, Bref(1)>>), Lc, NLookB(Lb), LE>>), 2, -1, TRUE), Lb>>),  \* (a)(?:b\1|c|(?<!b)|E){2,}b
+   \* \K inside a look-ahead: the recorded start lies BEYOND the end of the match
+   Cat(<<La, Look(Cat(<<Lb, Keep, Lc>>))>>),                                                 \* a(?=b\Kc)
+   Look(Cat(<<La, Keep>>)),                                                                  \* (?=a\K)
+   Cat(<<Grp(1, LE), Look(Cat(<<AnyC, Keep>>))>>),                                            \* (E)(?=.\K)
+   Alt(<<Cat(<<LookB(Cat(<<Keep, La>>)), Lb>>), Empty>>)                                      \* (?<=\Ka)b|
 >>
 WildShapePats == { [ast |-> WildShapes[j], ng |-> Opened(WildShapes[j])] : j \in 1..Len(WildShapes) }
 
